@@ -171,7 +171,7 @@ theorem c09k_complete_proof (inp : WalkInput) (walk : Nat → List Node) (hb : B
     · exact fun i j => klaecBaseAsg_r inp _ _ _ _ _ _ i j
   · intro i e
     unfold multOf
-    rw [kcovercWalkAsg_edge, floor_toNat_natCast]
+    rw [kcovercWalkAsg_edge, pyRoundCount_natCast]
 
 /-! ## the caps cut off nothing -/
 
